@@ -559,4 +559,124 @@ example : quiescentB (run (St.init 2 false) unsubAnsweredWithError).1 (run (St.i
 example : (step (run (St.init 2 false) unsubAnsweredWithError).1 (.recv tAck1)).fatal = some (.notPending (.num 1)) ∧
     (step (run (St.init 2 false) unsubAnsweredWithError).1 (.recv tAccept0)).fatal = some (.notPending (.num 0)) := by decide
 
+/-! ### C18.5 — every exit of the subscribe-response step: no reserved slot without a subscription -/
+
+/-- after `release_reserved_slot(id)` no bare marker `PendingMethodCall(None)` is left under `id` -/
+theorem releaseReservedSlot_no_marker (m : Mgr) (id : Id) :
+    alookup id (m.releaseReservedSlot id).requests ≠ some (.pendingCall none) := by
+  by_cases hm : alookup id m.requests = some (.pendingCall none)
+  · have : m.releaseReservedSlot id = { m with requests := aerase id m.requests } := by
+      simp only [Mgr.releaseReservedSlot, hm]
+    rw [this]
+    show alookup id (aerase id m.requests) ≠ _
+    rw [alookup_aerase_self]; simp
+  · rcases releaseReservedSlot_cases m id with h | ⟨h1, _⟩
+    · rw [h]; exact hm
+    · exact absurd h1 hm
+
+/-- The `PendingSubscription` arm of `process_single_response` has four exits (error response, result
+that is no subscription id, subscription id already in use = `insert_subscription` failed, subscription
+installed).  Either the subscription **is installed** (entry under the subscribe id that owns the
+reserved id `uid`, reverse index entry for a subscription id that was free), or the tables are those
+before the step with the reserved slot released: no bare marker is left under `uid`, `subs` is
+untouched, and the caller is not handed a subscription.  Seeded mutant C18-R6 drops the release on the
+third exit. -/
+theorem c18_subscribe_exit_no_reserved_slot (st : Core) (r : Response) (uid : Id) (t : Ticket) (um : Text) :
+    (∃ s, alookup s st.mgr.subs = none ∧ alookup r.id st.mgr.requests = none ∧
+        (completeSubscribe st r uid t um).1.mgr =
+          { st.mgr with requests := (r.id, .sub uid st.chans.length um) :: st.mgr.requests,
+                        subs := (s, r.id) :: st.mgr.subs }) ∨
+    ((completeSubscribe st r uid t um).1.mgr = st.mgr.releaseReservedSlot uid ∧
+      alookup uid (completeSubscribe st r uid t um).1.mgr.requests ≠ some (.pendingCall none) ∧
+      (completeSubscribe st r uid t um).1.mgr.subs = st.mgr.subs ∧
+      ∃ o, (completeSubscribe st r uid t um).2 = st.completeIfAlive t o ∧ ∀ c s, o ≠ .subscribed c s) := by
+  have hrel : ∀ o : Outcome, (∀ c s, o ≠ .subscribed c s) →
+      (({ st with mgr := st.mgr.releaseReservedSlot uid } : Core), st.completeIfAlive t o).1.mgr = st.mgr.releaseReservedSlot uid ∧
+      alookup uid (({ st with mgr := st.mgr.releaseReservedSlot uid } : Core), st.completeIfAlive t o).1.mgr.requests ≠ some (.pendingCall none) ∧
+      (({ st with mgr := st.mgr.releaseReservedSlot uid } : Core), st.completeIfAlive t o).1.mgr.subs = st.mgr.subs ∧
+      ∃ o', (({ st with mgr := st.mgr.releaseReservedSlot uid } : Core), st.completeIfAlive t o).2 = st.completeIfAlive t o' ∧ ∀ c s, o' ≠ .subscribed c s := by
+    intro o ho
+    exact ⟨rfl, releaseReservedSlot_no_marker st.mgr uid, (releaseReservedSlot_others st.mgr uid).1, o, rfl, ho⟩
+  unfold completeSubscribe
+  cases hp : r.payload with
+  | error e => exact Or.inr (hrel (.callErr e) (by intro c s h; cases h))
+  | result raw =>
+    simp only
+    cases hd : decodeSubId raw with
+    | none => exact Or.inr (hrel .badSubId (by intro c s h; cases h))
+    | some s =>
+      simp only
+      cases hins : st.mgr.insertSubscription r.id uid s st.chans.length um with
+      | none => exact Or.inr (hrel .invalidSubId (by intro c s h; cases h))
+      | some m' =>
+        obtain ⟨h1, h2, e⟩ := insertSubscription_spec _ _ _ _ _ _ _ hins
+        refine Or.inl ⟨s, h2, h1, ?_⟩
+        simp only
+        by_cases hal : st.alive t = true
+        · simp only [hal, if_true]; exact e
+        · simp only [hal]
+          simp only [Bool.false_eq_true, if_false, abandonedSubscribe, modChan_mgr]
+          exact e
+
+/-- The case of seeded mutant C18-R6 end to end: the response to a pending subscribe carries a
+subscription id that is **still in use** on this connection.  The subscribe entry and the reserved
+unsubscribe slot are both released, the active subscription is untouched, the caller gets
+`InvalidSubscriptionId`, and a later response bearing either request id matches nothing pending. -/
+theorem c18_subscribe_id_in_use (st : Core) (r : Response) (uid : Id) (t : Ticket) (um : Text) (raw : Text)
+    (s : SubId) (owner : Id)
+    (hp : alookup r.id st.mgr.requests = some (.pendingSub uid t um))
+    (hm : alookup uid st.mgr.requests = some (.pendingCall none))
+    (hr : r.payload = .result raw) (hd : decodeSubId raw = some s)
+    (huse : alookup s st.mgr.subs = some owner) :
+    ∃ st', processSingleResponse st r = .ok (st', st.completeIfAlive t .invalidSubId) ∧
+      st'.mgr.requests = aerase uid (aerase r.id st.mgr.requests) ∧
+      st'.mgr.subs = st.mgr.subs ∧ st'.mgr.batches = st.mgr.batches ∧ st'.mgr.handlers = st.mgr.handlers ∧
+      (∀ r' : Response, r'.id = r.id ∨ r'.id = uid → processSingleResponse st' r' = .error (.notPending r'.id)) := by
+  have hne : uid ≠ r.id := by
+    intro e; rw [e, hp] at hm; simp at hm
+  have hs : st.mgr.requestStatus r.id = .pendingSub := by unfold Mgr.requestStatus; rw [hp]
+  have hcp : st.mgr.completePendingSubscription r.id =
+      some ({ st.mgr with requests := aerase r.id st.mgr.requests }, uid, t, um) := by
+    unfold Mgr.completePendingSubscription; rw [hp]
+  have hm' : alookup uid (aerase r.id st.mgr.requests) = some (.pendingCall none) := by
+    rw [alookup_aerase_ne uid r.id _ hne]; exact hm
+  have hins : ({ st.mgr with requests := aerase r.id st.mgr.requests } : Mgr).insertSubscription r.id uid s st.chans.length um = none := by
+    unfold Mgr.insertSubscription
+    simp [huse]
+  have hrelm : ({ st.mgr with requests := aerase r.id st.mgr.requests } : Mgr).releaseReservedSlot uid =
+      { st.mgr with requests := aerase uid (aerase r.id st.mgr.requests) } := by
+    simp only [Mgr.releaseReservedSlot, hm']
+  have hres : processSingleResponse st r =
+      .ok ({ st with mgr := { st.mgr with requests := aerase uid (aerase r.id st.mgr.requests) } }, st.completeIfAlive t .invalidSubId) := by
+    unfold processSingleResponse
+    simp only [hs, hcp]
+    unfold completeSubscribe
+    simp only [hr, hd, hins, hrelm]
+    rfl
+  refine ⟨_, hres, rfl, rfl, rfl, rfl, ?_⟩
+  intro r' hr'
+  unfold processSingleResponse Mgr.requestStatus
+  have hnone : alookup r'.id (aerase uid (aerase r.id st.mgr.requests)) = none := by
+    rcases hr' with e | e
+    · rw [e, alookup_aerase_ne r.id uid _ (fun e => hne e.symm)]; exact alookup_aerase_self _ _
+    · rw [e]; exact alookup_aerase_self _ _
+  simp only [hnone]
+
+/-- `{"jsonrpc":"2.0","id":2,"result":"S"}`: the second subscribe is answered with the id of the first -/
+def tAccept2S : Text := [123, 34, 106, 115, 111, 110, 114, 112, 99, 34, 58, 34, 50, 46, 48, 34, 44, 34, 105, 100, 34, 58, 50, 44, 34, 114, 101, 115, 117, 108, 116, 34, 58, 34, 83, 34, 125]
+/-- `{"jsonrpc":"2.0","id":3,"result":true}`: a stray response bearing the reserved id of the refused subscribe -/
+def tStray3 : Text := [123, 34, 106, 115, 111, 110, 114, 112, 99, 34, 58, 34, 50, 46, 48, 34, 44, 34, 105, 100, 34, 58, 51, 44, 34, 114, 101, 115, 117, 108, 116, 34, 58, 116, 114, 117, 101, 125]
+
+/-- subscribe accepted with "S"; a second subscribe is answered with "S" while the first is still active -/
+def subIdInUse : List Step :=
+  [.newSubscribe tSubM tUnsubM, .sendTask 0, .recv tAccept0, .newSubscribe tSubM tUnsubM, .sendTask 0, .recv tAccept2S]
+
+-- two entries for the active subscription, nothing for the refused one; the reserved id 3 captures nothing;
+-- after the first subscription is closed by the server the tables are empty
+example : (run (St.init 2 false) subIdInUse).1.core.mgr.sizes = (2, 1, 0, 0) ∧
+    (run (St.init 2 false) (subIdInUse.take 5)).1.core.mgr.sizes = (4, 1, 0, 0) ∧
+    (step (run (St.init 2 false) subIdInUse).1 (.recv tStray3)).fatal = some (.notPending (.num 3)) ∧
+    (run (St.init 2 false) (subIdInUse ++ [.recv tCloseS])).1.core.mgr.sizes = (0, 0, 0, 0) ∧
+    quiescentB (run (St.init 2 false) (subIdInUse ++ [.recv tCloseS])).1 (run (St.init 2 false) (subIdInUse ++ [.recv tCloseS])).2 = true := by decide
+
 end Jrpc.Client
